@@ -32,7 +32,7 @@ def gen_desc(rng, depth=0):
     if x < 0.32:
         return {"k": "float", "v": rng.choice([0.0, -0.0, 1.5, 1e300, float("nan"), float("inf"), 5e-324]).hex()}
     if x < 0.40:
-        return {"k": "str", "v": rng.choice(["", "a", "é日本\U0001F600", "line\nbreak\x00", "x" * 500])}
+        return {"k": "str", "v": rng.choice(["", "a", "é日本\U0001F600", "line\nbreak\x00", "x" * 500, "dos\r\nmac\rend"])}
     if x < 0.46:
         return {"k": "bytes", "v": rng.choice(["", "00ff", "0a0d1a", "ab" * 300])}
     if x < 0.50:
@@ -190,6 +190,9 @@ def run(tier, seed):
                     ({"k": "part", "v": [["k1", {"k": "str", "v": "y" * 300}], ["k2", {"k": "int", "v": 3}]]}, "fs_tinycache", "normal"),
                     ({"k": "part", "v": [["k1", {"k": "nd", "v": [2.5] * 80, "dtype": "float64", "shape": [80]}]]}, "fs_cache", "normal"),
                     ({"k": "str", "v": "z" * 2000}, "fs_tinycache", "normal"),
+                    ({"k": "str", "v": "one\r\ntwo\rthree\n\r\n\u2028end\r"}, "fs", "normal"),          # every kind of line ending, read back from the files
+                    ({"k": "str", "v": "\r\n" * 40 + "\x85\x1c tail "}, "fs_tinycache", "normal"),
+                    ({"k": "dict", "v": [["a\r\nb", {"k": "str", "v": "c\rd"}]]}, "fs", "normal"),
                     ({"k": "npscalar", "v": 3.5, "dtype": "float64"}, "fs", "normal"),
                     ({"k": "tsz", "v": "2021-03-04T05:06:07", "zone": "Europe/Paris"}, "fs", "normal"),
                     ({"k": "pdtsz", "v": "2021-03-04T05:06:07", "zone": "America/New_York"}, "fs", "normal"),
